@@ -145,6 +145,10 @@ type Pkt struct {
 	// Auth, when set, adds a packet authenticator computed with this key (SPI as given).
 	AuthKey []byte
 	AuthSPI uint32
+	// Front, when set, is placed in front of the (authenticated) L4 header and
+	// payload after the authenticator has been computed: raw bytes of another L4
+	// header and payload, so that the authenticated bytes trail the datagram.
+	Front []byte
 }
 
 // Bytes serialises the packet with the SCION library.
@@ -217,6 +221,13 @@ func (p *Pkt) Bytes() []byte {
 			panic(err)
 		}
 		opt = append(append([]*slayers.EndToEndOption{}, opt...), ao)
+	}
+	if p.Front != nil {
+		fb, err := buffer.PrependBytes(len(p.Front))
+		if err != nil {
+			panic(err)
+		}
+		copy(fb, p.Front)
 	}
 	if opt != nil {
 		e := slayers.EndToEndExtn{}
@@ -374,4 +385,15 @@ func (SCIONTransport) Wrap(meta any, payload []byte) []byte {
 		p.RawPath = []byte{}
 	}
 	return p.Bytes()
+}
+
+// UDPFront returns a UDP header (length covering payload only, checksum zero)
+// followed by payload, for use as Pkt.Front.
+func UDPFront(srcPort, dstPort uint16, payload []byte) []byte {
+	b := make([]byte, 8, 8+len(payload))
+	b[0], b[1] = byte(srcPort>>8), byte(srcPort)
+	b[2], b[3] = byte(dstPort>>8), byte(dstPort)
+	l := 8 + len(payload)
+	b[4], b[5] = byte(l>>8), byte(l)
+	return append(b, payload...)
 }
